@@ -83,6 +83,12 @@ def check(ctx):
     for cls in ("IdealReservoir", "SinglePhaseReservoir"):
         _step(ctx, cls)
     returned_callables(ctx, "C10-e")
+    # C10-f: what recovery_factor keeps on the object is what it returns (the interpolator takes the kept curve when there
+    # is one and the returned one otherwise: the two must be the same curve) - the scale / stored-value rule of C02-g
+    from .recovery import scale_rule
+
+    for cls in ("IdealReservoir", "SinglePhaseReservoir", "TwoPhaseReservoir"):
+        scale_rule(ctx, "C10-f", cls)
 
 
 def returned_callables(ctx, rule):
